@@ -128,6 +128,27 @@ Theorem C12_resources_full_refuted_row_reset :
     exists x, nth_error (db (run_gen false false s0 evs)) 2 = Some x /\ length (cmds x) = 2.
 Proof. exact resources_full_refuted_row_reset. Qed.
 
+(* Fourth witness (the hash-check job in flight): after a partial recycle of a CHECKING step the verdict of the job
+   that is still in flight reaches a row that has moved on (late_verdict = what Executor.try_skip_job writes,
+   whatever the state of the row; on a CHECKING row it is ECheckDone: C12_checkdone_is_verdict). The second
+   verdict resets the RUNNING row to PENDING and the step is dispatched again while its first command executes:
+   2 units of gpu held of 1. Replayed on the real Workflow by the scripted E2 history `late-verdict`. Harmless
+   under either repair. *)
+Theorem C12_checkdone_is_verdict : forall keep rej s i c x, nth_error (db s) i = Some x -> st x = Checking ->
+  step_gen keep rej s (ECheckDone i c) = Some (late_verdict s i c).
+Proof. exact checkdone_is_verdict. Qed.
+
+Theorem C12_resources_full_refuted_late_verdict :
+  Inv sys0 /\
+  (exists x, nth_error (db (run_gen false false sys0 late_h1)) 2 = Some x /\ st x = Running /\ length (cmds x) = 1) /\
+  (availz (avail sys0) 1 <
+   cmd_used 1 (db (run_gen false false (late_verdict (run_gen false false sys0 late_h1) 2 CMismatch) late_h2)))%N.
+Proof. exact late_verdict_refuted. Qed.
+
+Theorem C12_late_verdict_harmless_when_repaired : forall keep rej, keep || rej = true ->
+  (cmd_used 1 (db (run_gen keep rej sys0 (late_h1 ++ late_h2))) <= 1)%N.
+Proof. exact late_verdict_harmless_when_repaired. Qed.
+
 (* PARTIAL (whatever the shape): for every start state satisfying Inv (tables agree with what executes,
    resource names per step distinct, nothing over-committed) and every history in which no step whose job
    is in flight (command executing, or hash check under way) is declared again (`quiet`): for every
